@@ -89,12 +89,31 @@ fn c03_piece_lengths_partition_8() {
 }
 
 // @prop C03
+// @fn Metainfo::piece_pos
+// @bound every byte offset in 0..2^20 and every piece_length in 1..=2^16
+// @desc piece_pos maps a byte offset of the concatenated content to (offset / piece_length, offset % piece_length): the position arithmetic behind every file's start and end
+#[kani::proof]
+fn c03_piece_pos_is_div_mod() {
+    let pl: u64 = kani::any();
+    kani::assume(pl >= 1 && pl <= 1 << 16);
+    let pos: usize = kani::any();
+    kani::assume(pos < 1 << 20);
+    let m = mk_metainfo(pl, vec![[0u8; HASH_SIZE]], vec![], "t");
+    let p = m.piece_pos(pos);
+    assert!(p.file_index == pos / pl as usize, "piece index = offset / piece_length");
+    assert!(p.byte_index == pos % pl as usize, "byte index = offset % piece_length");
+    kani::cover!(p.file_index > 0 && p.byte_index > 0, "offset strictly inside a later piece");
+    std::mem::forget(m);
+}
+
+// @prop C03
+// @tier off
 // @fn Metainfo::file_piece_ranges, Metainfo::piece_pos
 // @bound piece_length 1..=65536, 3 files with lengths 0..=2^20 each (zero-length files and several files inside one piece included)
 // @outside more than 3 files
 // @desc each file's start/end position is (offset / piece_length, offset % piece_length) of its running byte offset in the concatenated content
 #[kani::proof]
-#[kani::unwind(6)]
+#[kani::unwind(4)]
 fn c03_file_ranges_follow_offsets() {
     let pl: u64 = kani::any();
     kani::assume(pl >= 1 && pl <= 1 << 16);
